@@ -762,6 +762,29 @@ pub fn drive_writedirs(seed: u64, tier: &str, out: &mut Out) {
             }
         }
     }
+    // exactly on the budget: with compression none a list of n consecutive single-tile entries with 1-byte fields encodes to
+    // 2 + 4n bytes, plus one byte per entry whose length needs a 2-byte varint: 4063 entries with 3 such entries = 16257 bytes
+    // (must stay a single root), with 4 = 16258 bytes (must spill)
+    for k in [3usize, 4] {
+        let es: Vec<Entry> = (0..4063u64)
+            .scan(0u64, |off, i| {
+                let len = if (i as usize) < k { 200u32 } else { 100 };
+                let e = Entry { tile_id: 5 + i, run_length: 1, length: len, offset: *off };
+                *off += u64::from(len);
+                Some(e)
+            })
+            .collect();
+        for api in ["sync", "async"] {
+            let ev = writedirs_event(&es, 1, None, 0, api);
+            if ev["first_len"].as_u64() == Some(16257) {
+                ctx.bump("writedirs_exactly_on_budget");
+            }
+            if ev["first_len"].as_u64() == Some(16258) {
+                ctx.bump("writedirs_one_byte_over_budget");
+            }
+            out.emit(ev);
+        }
+    }
     // a single-root encoding just beyond 65536 bytes (a length that would fit again if it were truncated to 16 bits)
     for c in (if tier == "thorough" { vec![1u8, 2, 4] } else { vec![1u8] }) {
         let n = steer_n(&pool, comp_of(c), 65536 + 6000);
@@ -870,6 +893,40 @@ pub fn drive_steer(seed: u64, tier: &str, out: &mut Out) {
         em.emit(&exec(&ops, false), out);
         println!("stat steer_archive_beyond_65536_entries=1");
         em.light = false;
+    }
+    for k in [3u64, 4] {
+        let tiles: Vec<(u64, Vec<u8>)> = (0..4063u64)
+            .map(|i| {
+                let mut b = (i as u32).to_le_bytes().to_vec();
+                b.resize(if i < k { 200 } else { 100 }, 0x33);
+                (5 + i, b)
+            })
+            .collect();
+        let mut set = Settings::random(&mut rng, 1);
+        set.ic = 1;
+        let api = (k % 2) as u8;
+        let mut ops = vec![Op::New { tt: set.tt, tc: set.tc, api }, Op::Set(set), Op::Bulk(tiles.clone()), Op::Save, Op::Reopen { api: 1 - api }, Op::Count];
+        for _ in 0..30 {
+            ops.push(Op::Get { id: rng.pick(&tiles).0 });
+        }
+        ops.push(Op::Get { id: tiles[tiles.len() - 1].0 });
+        ops.push(Op::Reset);
+        let obs = exec(&ops, false);
+        for o in &obs {
+            if let (Op::Save, Some(b)) = (&o.op, &o.file) {
+                if b.len() >= 127 {
+                    let root_len = u64::from_le_bytes(b[16..24].try_into().expect("8"));
+                    let leaf_len = u64::from_le_bytes(b[48..56].try_into().expect("8"));
+                    if root_len == 16257 && leaf_len == 0 {
+                        println!("stat steer_root_exactly_16257=1");
+                    }
+                    if leaf_len > 0 {
+                        spilled += 1;
+                    }
+                }
+            }
+        }
+        em.emit(&obs, out);
     }
     println!("stat steer_saves_with_leaf_directories={spilled}");
     println!("stat steer_saves_with_root_near_budget={window}");
